@@ -282,6 +282,13 @@ def build_evidence(pid, tier, seed, pm, jobs, results, worlds, wall, known_hits,
                 fired = r.get("fault_fired") if fk == "line" else True
                 if fired:
                     faults_fired[fk] = faults_fired.get(fk, 0) + 1
+            if s["k"] != "sweep" and (s.get("clock") or f.get("clock")):
+                faults_cfg["clock_script"] = faults_cfg.get("clock_script", 0) + 1
+                if r.get("clock_reads"):
+                    faults_fired["clock_script"] = faults_fired.get("clock_script", 0) + 1
+            if s.get("readonly"):
+                faults_cfg["readonly_args"] = faults_cfg.get("readonly_args", 0) + 1
+                faults_fired["readonly_args"] = faults_fired.get("readonly_args", 0) + 1
             if s["k"] in ("rng", "clock"):
                 kind = "world_event_" + s["k"]
                 faults_cfg[kind] = faults_cfg.get(kind, 0) + 1
